@@ -77,7 +77,7 @@ def rule_layout(ctx, tu, I, py):
     ctx.check(s.startswith("valproc.get_value_in_env(r.kf,env,UnitValue(0,Units(units_system,r.kf_units_dimensions())))") and
               s.endswith(".convert(units_system).value"), R, ap[0] if ap else f, f._qual, "entry = kf of r in env (0 with the right "
               "dimension when absent), converted", "", "entry is not the forward constant of reaction r in environment env")
-    ctx.floor(R, 90)
+    ctx.floor(R, 75)      # coverage guard: merged duplicate subscripts lower the count without losing a table
 
 
 def rule_phase(ctx, tu, eff, R="C01.PHASE"):
@@ -258,24 +258,71 @@ def rule_py_siblings(ctx, py):
     m = py.fn("rdsystem.RDSystem.make_dxdtf")
     from .. import pynorm
     m = pynorm.renamed(m, pynorm.dxdtf_roles(m))     # locals identified by what they are defined as
+    # the constants: one per split reaction, as an append loop or as a comprehension over `reactions`
     rl = [n for n in m.body if isinstance(n, ast.For) and pyfe.src(n.iter) == "reactions"]
-    ctx.need(len(rl) == 1, R, "make_dxdtf: loop over the split reactions not found")
-    rvar = pyfe.src(rl[0].target)
-    try:
-        app = pysym.appended(rl[0].body, m, "k")
-    except pysym.NotModelled as e:
-        ctx.error(R, "make_dxdtf: %s" % e)
-    ctx.need(len(app) == 1, R, "make_dxdtf: appended rate constant not found")
+    kc = [n for n in m.body if isinstance(n, ast.Assign) and pyfe.src(n.targets[0]) == "k" and isinstance(n.value, ast.ListComp)
+          and len(n.value.generators) == 1 and pyfe.src(n.value.generators[0].iter) == "reactions" and
+          not n.value.generators[0].ifs]
+    ctx.need(len(rl) + len(kc) == 1, R, "make_dxdtf: loop over the split reactions not found")
+    if rl:
+        rvar = pyfe.src(rl[0].target)
+        try:
+            app = pysym.appended(rl[0].body, m, "k")
+        except pysym.NotModelled as e:
+            ctx.error(R, "make_dxdtf: %s" % e)
+        ctx.need(len(app) == 1, R, "make_dxdtf: appended rate constant not found")
+        knode, kval = app[0]
+    else:
+        rvar = pyfe.src(kc[0].value.generators[0].target)
+        knode, kval = kc[0], pysym.frat(kc[0].value.elt, m, stop={rvar})
     wantk = pysym.frat(P("valproc.get_value_in_env(%s.kf, env, UnitValue(0, Units(units_system, %s.kf_units_dimensions())))"
-                         ".convert(units_system).value * vol ** (1 - %s.order())" % (rvar, rvar, rvar)), m)
-    ctx.check(app[0][1].equals(wantk), R, app[0][0], m._qual, "k_r = k[env] * V ** (1 - order)", "same scaling as the engine's "
-              "mesh_kr", "the constant of the exported ODE is %r, expected k * vol**(1 - order)" % (app[0][1],))
+                         ".convert(units_system).value * vol ** (1 - %s.order())" % (rvar, rvar, rvar)), m, stop={rvar})
+    ctx.check(kval.equals(wantk), R, knode, m._qual, "k_r = k[env] * V ** (1 - order)", "same scaling as the engine's "
+              "mesh_kr", "the constant of the exported ODE is %r, expected k * vol**(1 - order)" % (kval,))
     inner = [n for n in ast.walk(m) if isinstance(n, ast.FunctionDef) and n is not m]
     ctx.need(len(inner) == 1, R, "make_dxdtf: inner function not found")
     d = inner[0]
-    s = pyfe.src(d).replace(" ", "")
-    ok = ("rates[r]*=x[s]**sub[r][s]" in s or "rates[r]=rates[r]*x[s]**sub[r][s]" in s) and \
-        ("dxdt[s]+=rates[r]*sto[r][s]" in s or "dxdt[s]+=sto[r][s]*rates[r]" in s or "dxdt[s]=dxdt[s]+rates[r]*sto[r][s]" in s)
+    xv = pyfe.params(d)[1] if len(pyfe.params(d)) > 1 else "x"
+
+    def loopvars(node):
+        out, p_ = [], pyfe.parent(node)
+        while p_ is not None and p_ is not d:
+            if isinstance(p_, ast.For) and isinstance(p_.target, ast.Name):
+                out.append(p_.target.id)
+            p_ = pyfe.parent(p_)
+        return out
+    mul = [n for n in ast.walk(d) if isinstance(n, ast.AugAssign) and isinstance(n.op, ast.Mult) and
+           isinstance(n.target, ast.Subscript) and pyfe.src(n.target.value) == "rates"]
+    add = [n for n in ast.walk(d) if isinstance(n, ast.AugAssign) and isinstance(n.op, ast.Add) and
+           isinstance(n.target, ast.Subscript) and pyfe.src(n.target.value) == "dxdt"]
+    ok = len(mul) == 1 and len(add) == 1
+    if ok:
+        a_ = pyfe.src(mul[0].target.slice)
+        others = [v for v in loopvars(mul[0]) if v != a_]
+        ok = len(others) == 1 and pysym.frat(mul[0].value, d, stop=set(loopvars(mul[0]))).equals(
+            pysym.frat(P("%s[%s] ** sub[%s][%s]" % (xv, others[0], a_, others[0])), d, stop=set(loopvars(mul[0]))))
+    if ok:
+        b_ = pyfe.src(add[0].target.slice)
+        others = [v for v in loopvars(add[0]) if v != b_]
+        ok = len(others) == 1 and pysym.frat(add[0].value, d, stop=set(loopvars(add[0]))).equals(
+            pysym.frat(P("rates[%s] * sto[%s][%s]" % (others[0], others[0], b_)), d, stop=set(loopvars(add[0]))))
+    # rates starts as a copy of k, dxdt as zeros
+    init = {pyfe.src(n.targets[0]): n.value for n in d.body if isinstance(n, ast.Assign) and len(n.targets) == 1}
+
+    def is_copy_of_k(e):
+        t = pyfe.src(e).replace(" ", "")
+        if t in ("list(k)", "k.copy()", "k[:]", "k+[]"):
+            return True
+        return isinstance(e, ast.ListComp) and len(e.generators) == 1 and not e.generators[0].ifs and \
+            pyfe.src(e.elt).replace(" ", "") == "k[%s]" % pyfe.src(e.generators[0].target)
+
+    def is_zeros(e):
+        if isinstance(e, ast.ListComp):
+            return isinstance(e.elt, ast.Constant) and e.elt.value == 0 and len(e.generators) == 1 and not e.generators[0].ifs
+        return isinstance(e, ast.BinOp) and isinstance(e.op, ast.Mult) and any(
+            isinstance(x_, ast.List) and len(x_.elts) == 1 and isinstance(x_.elts[0], ast.Constant) and x_.elts[0].value == 0
+            for x_ in (e.left, e.right))
+    ok = ok and "rates" in init and is_copy_of_k(init["rates"]) and "dxdt" in init and is_zeros(init["dxdt"])
     ms = pyfe.src(m).replace(" ", "")
     ok = ok and "sub=[list(r.ssto(sl))forrinreactions]" in ms and "sto=[list(r.dsto(sl))forrinreactions]" in ms
     ctx.check(ok, R, d, m._qual, "rate_r = k_r * prod x_s ^ sub[r][s];  dxdt_s = sum_r rate_r * sto[r][s]", "", "the exported "
@@ -350,7 +397,7 @@ def rule_graph_neighbours(ctx, py):
         return False
     sources = []     # (node, kind, detail)
     if isinstance(it, ast.Name):
-        L = it.id
+        L = pyfe.src(it)
         for n in ast.walk(f):
             if isinstance(n, ast.Assign) and len(n.targets) == 1 and pyfe.src(n.targets[0]) == L and \
                     isinstance(n.value, ast.ListComp):
